@@ -133,6 +133,9 @@ def _catalogue():
         return _mk(vs, es, [i % 2 for i in range(n)])
 
     C["fan4"] = fan(4, 0.25)
+    # one-element-wide, non-uniform open strip: interior edges join two boundary vertices shared by different numbers of triangles
+    C["strip4"] = _mk([[0, 0, 0], [1.1, 0.05, 0.1], [2.4, -0.1, 0.0], [0.2, 0.9, 0.15], [1.6, 1.1, -0.05], [3.1, 0.8, 0.2]],
+                      [[0, 1, 3], [1, 4, 3], [1, 2, 4], [2, 5, 4]], [0, 0, 1, 1])
     C["fan5"] = fan(5, 0.2)
     C["book3"] = _mk(
         [[0, 0, 0], [0.05, 0.02, 1.0], [1.0, 0.1, 0.4], [-0.6, 0.8, 0.5], [-0.5, -0.9, 0.6]],
